@@ -37,6 +37,21 @@ VBLK = TOpaque("SingularValuesOfSector")
 Q = "linalg.svd_truncated"
 
 CUM = z3.Function("cumsum_fold", z3.IntSort(), z3.RealSort())
+# products of two unknowns are abstracted by the order properties of real multiplication that the argument
+# needs (all true of *): keeps every query linear and the verdicts independent of solver heuristics
+MUL = z3.Function("real_mul", z3.RealSort(), z3.RealSort(), z3.RealSort())
+SQ = z3.Function("real_square", z3.RealSort(), z3.RealSort())
+
+
+def arith_axioms():
+    x, y, z = z3.Reals("x!ax y!ax z!ax")
+    return [
+        z3.ForAll([x, y], MUL(x, y) == MUL(y, x)),
+        z3.ForAll([x, y, z], z3.Implies(z3.And(x <= y, z >= 0), MUL(x, z) <= MUL(y, z))),
+        z3.ForAll([x, y], z3.Implies(z3.And(x >= 0, y >= 0), MUL(x, y) >= 0)),
+        z3.ForAll([x], SQ(x) >= 0),
+        z3.ForAll([x, y], z3.Implies(z3.And(0 <= x, x <= y), SQ(x) <= SQ(y))),
+    ]
 CNTGE = z3.Function("count_values_at_least", VBLK.sort(), z3.RealSort(), z3.IntSort())
 
 
@@ -62,6 +77,11 @@ class _Reached(Exception):
         self.t, self.within = t, within
 
 
+def exact_arith():
+    x, y = z3.Reals("x!ex y!ex")
+    return [z3.ForAll([x, y], MUL(x, y) == x * y), z3.ForAll([x], SQ(x) == x * x)]
+
+
 def _task(mode, with_bond, monotone=False):
     def body(it):
         ctx = it.ctx
@@ -85,7 +105,7 @@ def _task(mode, with_bond, monotone=False):
         ctx.witness = {"hints": [N <= 6], "terms": {"n": N, "cutoff": cutoff, "max_bond": mb, "values_ascending": [A[q] for q in range(6)]}}
 
         def pw(x):
-            return x * x if p == 2 else x
+            return SQ(x) if p == 2 else x
 
         raw = SymObj(None, tag="s_dense_unsorted")
         sblocks = SymDict(z3.Const("s_has", z3.ArraySort(z3.IntSort(), z3.BoolSort())), z3.Const("s_val", z3.ArraySort(z3.IntSort(), VBLK.sort())), TInt, VBLK, "s_blocks")
@@ -145,12 +165,13 @@ def _task(mode, with_bond, monotone=False):
             if is_nd(a, "real") and op is _ast.Pow and b == 2:
                 arr = a.fields["$arr"]
                 kk = z3.Int("kk!pow")
-                return nd("real", a.fields["$len"], z3.Lambda([kk], z3.Select(arr, kk) * z3.Select(arr, kk)))
+                return nd("real", a.fields["$len"], z3.Lambda([kk], SQ(z3.Select(arr, kk))))
             if is_nd(a, "real") and op is _ast.Pow and b == 1:
                 return a
             return None
 
         it.binop_hook = binop_hook
+        it.real_mul = MUL
 
         def compare_hook(it_, op, a, b):
             from pyvc.interp import R
@@ -178,7 +199,7 @@ def _task(mode, with_bond, monotone=False):
             if monotone:
                 within = z3.BoolVal(True)
                 if mode >= 3:
-                    L = st["cutoff"] if mode in (3, 5) else st["cutoff"] * CUM(N)
+                    L = st["cutoff"] if mode in (3, 5) else MUL(st["cutoff"], CUM(N))
                     within = CUM(N) >= L  # some prefix weight reaches the limit
                 raise _Reached(t, within)
             # the per-sector count: number of that sector's values that are >= the final threshold
@@ -196,13 +217,13 @@ def _task(mode, with_bond, monotone=False):
             bond_ok = (lambda ix: ix >= N - mb) if with_bond else (lambda ix: z3.BoolVal(True))
             nm = f"svd_truncated.cutoff_core.mode{mode}.kept_are_exactly_those_permitted_by_cutoff_rule_and_bond_limit"
             if mode in (1, 2):
-                thr = cutoff if mode == 1 else A[N - 1] * cutoff
+                thr = cutoff if mode == 1 else MUL(cutoff, A[N - 1])
                 rule = lambda ix: A[ix] >= thr  # noqa: E731
                 within = z3.BoolVal(True)
             else:
                 if st["cum_of"] is None:
                     raise Unsupported("no cumulative sum was formed")
-                L = cutoff if mode in (3, 5) else cutoff * CUM(N)
+                L = cutoff if mode in (3, 5) else MUL(cutoff, CUM(N))
                 # the specification's boundary: number of prefix weights below the limit (exists: W is monotone)
                 ds = ctx.fresh("spec_boundary", TInt)
                 ctx.assume(z3.And(0 <= ds, ds <= N))
@@ -259,7 +280,10 @@ def _task(mode, with_bond, monotone=False):
         ["C13"],
         [Q],
         body,
+        axioms=arith_axioms,
+        refine_axioms=exact_arith,
         assumes=[
+            "products of two unknown reals (cutoff * total weight, cutoff * largest value, value ** 2) are abstracted by uninterpreted functions with the order axioms of real multiplication (commutative, monotone for non-negative factors, squares non-negative and monotone on non-negative reals)",
             "A-numpy: sort, cumsum (ghost fold), count_nonzero, **, >=, 1-D indexing have their mathematical meaning; reals instead of floats (A-float)",
             "lemma instances: a fold of non-negative terms is monotone; a monotone boolean sequence has a boundary index and its number of true entries is length - boundary",
             "prefix of svd_truncated only: statements after `sub_max_bonds = [...]` (slicing of the factors, absorption) are not interpreted here (bounded tier C13)",
